@@ -639,3 +639,39 @@ def rule_defaults(chk, prefix, modules=None):
                 "parameter default `%s` is %s: every call shares it" % (unparse(d)[:50], why))
     if not bad:
         chk.ok("%s.state" % prefix, "production-functions:no-shared-defaults", "eliot/", "%d parameter defaults examined; none is a mutable literal or a definition-time call" % n, sites=n)
+
+
+# ---------------------------------------------------------------------------
+# memoisation
+
+MEMO_DECORATORS = {"lru_cache", "cache", "cached_property", "memoize", "memoized", "cachedproperty", "cached"}
+PROPERTY_MODULES = {
+    "C01": None, "C07": None,
+    "C02": ("_action", "_message", "_output", "_errors"), "C03": ("_action", "_errors", "_util", "_traceback", "_generators"),
+    "C04": ("_action",), "C05": ("_action",), "C06": ("_action", "parse", "_message"), "C08": ("_output", "_action"),
+    "C09": ("parse", "_action", "_message"), "C10": ("_output", "json"), "C11": ("_output", "json", "parse", "_action", "_message"),
+    "C12": ("_output",), "C13": ("_validation", "_output", "_message", "_action"), "C14": ("_validation", "_output", "testing"),
+    "C15": ("_generators",), "C16": ("_output",), "C17": ("testing",), "C18": ("_action",), "C19": ("logwriter",), "C20": ("prettyprint", "filter"),
+}
+
+
+def rule_no_memo(chk):
+    """No function of the modules this property depends on is memoised: a cached lookup /
+    rendering / current-action answer goes stale (state carried across calls)."""
+    ctx = chk.ctx
+    mods = PROPERTY_MODULES.get(chk.pid)
+    n = 0
+    bad = []
+    for f in ctx.p.all_funcs():
+        if mods is not None and f.module.short not in mods:
+            continue
+        for d in f.decorators:
+            n += 1
+            name = unparse(d.func if isinstance(d, ast.Call) else d).split(".")[-1]
+            if name in MEMO_DECORATORS:
+                bad.append((f, name))
+    for f, name in bad:
+        chk.bad("%s.state" % chk.pid, "%s:memoised" % f.fq, chk.where(f),
+                "%s is decorated with @%s: its result is remembered across calls and goes stale when the state it depends on (registry, context, fields, time) changes" % (f.fq, name))
+    if not bad:
+        chk.ok("%s.state" % chk.pid, "no-memoised-function", "eliot/", "%d decorators examined in the modules this property depends on; none memoises" % n, sites=max(n, 1))
